@@ -82,6 +82,7 @@ EXTENDS Integers, Sequences, FiniteSets, TLC, Json
 CONSTANTS MeshNames,     \* base meshes
           RefineOn,      \* base meshes that may be refined
           MaxLevel,      \* refinement levels 0..MaxLevel
+          Refine2On,     \* base meshes that may be refined once more (levels 0..MaxLevel + 1)
           GeomIds,       \* indices into GmGeoms
           FieldIds,      \* indices into GmFields
           Lattice,       \* K: sample points have local coordinates k / K (meshes of dimension 1 and 2)
@@ -89,7 +90,7 @@ CONSTANTS MeshNames,     \* base meshes
           IntegrateOn,   \* base meshes on which integrals are taken
           BFieldOn,      \* base meshes on whose boundary topology fields are defined (EvalBoundaryField)
           RefineOnB,     \* base meshes that may be refined for EvalBoundaryField only
-          ProdGeomIds,   \* more geometry maps, for the product meshes (more than one space) only
+          ProdGeomIds,   \* the geometry maps that are tried on the three-dimensional product meshes (instead of GeomIds)
           GmMutant       \* "none" or the name of a deliberately wrong model variant
 
 VARIABLES mesh, geom, field, stage, res
@@ -594,11 +595,12 @@ Regular(g) == LET RAt(el, xi) == MMul(TLCEval([i \in 1..g.n |-> TLCEval([j \in 1
                  /\ g.n = g.m => Cardinality(UNION {{sgn(el, xi) : xi \in pts(el)} : el \in mesh.elems}) = 1
 Init == /\ \E name \in MeshNames : mesh = MkMesh(name, 0, BaseElems(name))
         /\ geom = NoGeom /\ field = NoField /\ stage = "mesh" /\ res = [rows |-> {}, tot |-> NoTot]
-Refine == /\ stage = "mesh" /\ mesh.level < MaxLevel /\ mesh.name \in RefineOn \cup RefineOnB
+LevelMax(name) == IF name \in Refine2On THEN MaxLevel + 1 ELSE MaxLevel
+Refine == /\ stage = "mesh" /\ mesh.level < LevelMax(mesh.name) /\ mesh.name \in RefineOn \cup RefineOnB
           /\ mesh' = MkMesh(mesh.name, mesh.level + 1, UNION {Children(el) : el \in mesh.elems})
           /\ UNCHANGED <<geom, field, stage, res>>
 SetGeom == /\ stage = "mesh"
-           /\ \E i \in GeomIds \cup (IF Len(mesh.sp) > 1 THEN ProdGeomIds ELSE {}) :
+           /\ \E i \in (IF Len(mesh.sp) > 1 /\ mesh.m = 3 THEN ProdGeomIds ELSE GeomIds) :
                  /\ GmGeoms[i].m = mesh.m
                  /\ Regular(GeomRec(i))
                  /\ geom' = GeomRec(i)
@@ -625,7 +627,7 @@ CanIntegrateAll == FullEval /\ mesh.name \in IntegrateOn /\ \A el \in mesh.elems
 Integrate == /\ stage = "field" /\ CanIntegrateAll
              /\ stage' = "integrals" /\ res' = Integrals
              /\ UNCHANGED <<mesh, geom, field>>
-RefineIntegrals == /\ stage = "integrals" /\ mesh.level < MaxLevel /\ mesh.name \in RefineOn
+RefineIntegrals == /\ stage = "integrals" /\ mesh.level < LevelMax(mesh.name) /\ mesh.name \in RefineOn
                    /\ LET kids == UNION {Children(el) : el \in mesh.elems}
                       IN mesh' = MkMesh(mesh.name, mesh.level + 1, kids) /\ res' = IntegralsOf(kids)
                    /\ UNCHANGED <<geom, field, stage>>
